@@ -46,10 +46,45 @@ def canvas(ctx, rule='K1'):
     return out
 
 
+def cel_loop_item(fi, c):
+    """how frame_image obtains the cel it passes to write_cel (call c) and which term is that cel's layer id:
+       form A  for (layer_id, cel) in self.framedata.frame_cels(frame)            -> ('A', item.0, item)
+       form B  for layer_id in 0..self.num_layers() { if let Some(cel) = self.framedata.cel(CelId { frame, layer: layer_id as u16 }) .. }
+               (ascending range over all layer ids, the lookup keyed by the loop variable)  -> ('B', loop variable, None)
+    -> (form, layer id term, item term) or (None, None, None)"""
+    cel = q.arg_terms(c)[2]
+    if cel[0] == 'field' and cel[2] == '1' and cel[1][0] == 'next':
+        src = q.unwrap_into_iter(cel[1][1])
+        if src[0] == 'call' and src[1] == 'asefile::cel::CelsData::frame_cels' and is_param_path(src[2][0], 1, ['framedata']) \
+                and is_param(strip_casts(src[2][1]), 2):
+            return 'A', ('field', cel[1], '0'), cel[1]
+        return None, None, None
+    x = cel
+    if x[0] == 'call' and x[1] == 'asefile::cel::CelsData::cel' and is_param_path(x[2][0], 1, ['framedata']):
+        cid = x[2][1]
+        if cid[0] == 'agg' and cid[2] == 'CelId':
+            f = dict(cid[3])
+            lv = strip_casts(f.get('layer', ('unknown',)))
+            if is_param(strip_casts(f.get('frame', ('unknown',))), 2) and lv[0] == 'next':
+                rg = q.unwrap_into_iter(lv[1])
+                if rg[0] == 'agg' and rg[1] == 'std::ops::Range':
+                    rf = dict(rg[3])
+                    end = strip_casts(rf['end'])
+                    # the bound is the layer count itself, at most widened: `0..self.num_layers() as u16` wraps to 0 at 65536 layers
+                    # (seed C19-l) and is not this form
+                    widened = all(layout.value_preserving(a_, b_) for a_, b_ in casts_on(rf['end'])[0])
+                    if q.const_val(rf['start']) == 0 and end[0] == 'call' and end[1] == AF + 'num_layers' and is_param(end[2][0], 1) and widened:
+                        return 'B', lv, None
+    return None, None, None
+
+
 def order(ctx, rule='K2'):
     """cels are visited in ascending layer index: frame_cels = data[frame].iter().enumerate().filter_map(..)"""
     fx = ctx.fx
-    b = ctx.anchor('asefile::cel::CelsData::frame_cels')
+    fi0 = fx.body(AF + 'frame_image')
+    forms = [cel_loop_item(fi0, c)[0] for c in q.calls(fi0, AF + 'write_cel')] if fi0 is not None else []
+    # frame_cels is judged when frame_image uses it (or when it exists at all); a frame_image that walks 0..num_layers() itself needs none
+    b = fx.body('asefile::cel::CelsData::frame_cels') if forms and all(f == 'B' for f in forms) else ctx.anchor('asefile::cel::CelsData::frame_cels')
     if b is not None:
         t = res(b).ret()
         chain = []
@@ -105,13 +140,10 @@ def order(ctx, rule='K2'):
         for c in ws:
             at = q.arg_terms(c)
             cel = at[2]
-            ok = cel[0] == 'field' and cel[2] == '1' and cel[1][0] == 'next'
-            if ok:
-                src = q.unwrap_into_iter(cel[1][1])
-                ok = src[0] == 'call' and src[1] == 'asefile::cel::CelsData::frame_cels' and is_param_path(src[2][0], 1, ['framedata']) \
-                    and is_param(strip_casts(src[2][1]), 2)
-            ctx.inst(rule, fi.name + '#loop', ok, 'frame_image draws %s; must be item.1 of a direct loop over framedata.frame_cels(frame)'
-                     % show(cel)[:120], c.span, key=fi.name + '|%s|loop' % rule)
+            form, _lid, _item = cel_loop_item(fi, c)
+            ok = form is not None
+            ctx.inst(rule, fi.name + '#loop', ok, 'frame_image draws %s; must be item.1 of a direct loop over framedata.frame_cels(frame) (or the cel looked up '
+                     'for the loop variable of 0..num_layers())' % show(cel)[:120], c.span, key=fi.name + '|%s|loop' % rule)
             L = fi.cfg.loop_of(c.bb)
             exits = q.loop_exit_kinds(fi, L) if L else [(0, 0, 'other')]
             ok = L is not None and all(k in ('exhausted', 'unreachable') for _, _, k in exits)
@@ -156,19 +188,19 @@ def gate(ctx, rule='K4'):
     for c in q.calls(fi, AF + 'write_cel'):
         ok = False
         desc = []
+        form, lid_want, _item = cel_loop_item(fi, c)
         for cond, vals, a in q.guards(fi, c.bb):
             desc.append(show(cond)[:80])
-            if cond[0] == 'call' and cond[1] == 'asefile::layer::Layer::is_visible' and q.bool_outcome(fi, a, vals) is True:
-                ly = cond[2][0]
-                if ly[0] == 'call' and ly[1] == AF + 'layer' and is_param(ly[2][0], 1):
-                    lid = ly[2][1]
-                    ok = lid[0] == 'field' and lid[2] == '0' and lid[1][0] == 'next' and lid[1] == q.arg_terms(c)[2][1]
-            if cond[0] == 'un' and cond[1] == 'Not' and cond[2][0] == 'call' and cond[2][1] == 'asefile::layer::Layer::is_visible' \
-                    and q.bool_outcome(fi, a, vals) is False:
-                ly = cond[2][2][0]
-                if ly[0] == 'call' and ly[1] == AF + 'layer':
-                    lid = ly[2][1]
-                    ok = lid[0] == 'field' and lid[2] == '0' and lid[1] == q.arg_terms(c)[2][1]
+            truth = q.bool_outcome(fi, a, vals)
+            neg = False
+            cc = cond
+            while cc[0] == 'un' and cc[1] == 'Not':
+                cc, neg = cc[2], not neg
+            if cc[0] == 'call' and cc[1] == 'asefile::layer::Layer::is_visible' and truth is not None and (truth != neg):
+                ly = cc[2][0]
+                if ly[0] == 'call' and ly[1] == AF + 'layer' and is_param(ly[2][0], 1) and lid_want is not None:
+                    # the layer asked is the layer of the cel being drawn: the same loop item's index (form A) / the same loop variable (form B)
+                    ok = ok or strip_casts(ly[2][1]) == strip_casts(lid_want)
         ctx.inst(rule, fi.name, ok, 'write_cel in frame_image is %s by layer(item.0).is_visible() == true for the same loop item'
                  % ('guarded' if ok else 'NOT guarded'), c.span, key=fi.name + '|%s|gate' % rule, detail={'guards': desc})
 
@@ -373,8 +405,7 @@ def clip_bounds(b, bb, coord, axis_dims, img):
             if rg[0] == 'agg':
                 f = dict(rg[3])
                 lo = lo or q.const_val(f['start']) == 0
-                dims = [x for x in walk(f['end']) if x[0] == 'call' and x[1] == 'image::ImageBuffer::' + axis_dims[0] and is_param(x[2][0], img)]
-                hi = hi or bool(dims)
+                hi = hi or is_dim(f['end'])
     if not (lo and hi):
         rl, rh = clipped_by_range(coord, axis_dims, img)
         lo, hi = lo or rl, hi or rh
